@@ -20,6 +20,13 @@ ZERO_TREES = [
 ]
 
 
+WIDE = {"w": DIR, **{f"w/file{i:02d}.bin": b"content %d" % i for i in range(14)}, "w/s1": DIR, "w/s1/x.txt": b"x1", "w/s2": DIR,
+        "w/s2/x.txt": b"x2", "w/s3": DIR, "top.txt": b"top"}
+SAMENAME = {"a": DIR, "a/x": DIR, "a/x/f.txt": b"in a", "b": DIR, "b/x": DIR, "b/x/f.txt": b"in b", "c": DIR, "c/x": DIR,
+            "c/x/f.txt": b"in a", "x": DIR, "x/f.txt": b"top x", "a/x/deep": DIR, "a/x/deep/x": DIR, "a/x/deep/x/f.txt": b"deep"}
+SPECIAL_TREES = [WIDE, SAMENAME]
+
+
 def synthetic(ctx, fmt):
     """drive the directory-hash context directly with chosen child digests (leading zero bytes, extremes) and compare
     with the definition computed on raw bytes"""
@@ -100,6 +107,9 @@ def eval_case(ctx, case):
     if case.get("order") == "reversed":
         sub.ORDER["perm"] = lambda d, names: list(reversed(names))
     try:
+        if case.get("prior"):   # an earlier generation in another format must not influence the new directory hashes
+            res, t = ops.run_cmd(ctx, t, ops.create("", case["prior"], i=pats), now - 50, order=case.get("order"))
+            stats["cmds"] += 1
         if nested is not None:
             res, t = ops.run_cmd(ctx, t, ops.create(nested, ["md5"], i=pats), now, order=case.get("order"))
             stats["cmds"] += 1
@@ -134,7 +144,8 @@ def eval_case(ctx, case):
                           where=k[0], empty=not any(p.startswith(d + "/") for p in med) if d else not med)
         # verify -dh -co prints the same values: on the sealed tree (formats taken from the history) and on the
         # bare tree with an explicit -h (no history to compare against)
-        runs = [(post, None, fmts)] + [(med, f, [f]) for f in (fmts if len(fmts) == 1 else [fmts[0], fmts[-1]])]
+        sealed_fmts = list(fmts) + [f for f in (case.get("prior") or []) if f not in fmts]   # -co without -h prints every recorded format
+        runs = [(post, None, sealed_fmts)] + [(med, f, [f]) for f in (fmts if len(fmts) == 1 else [fmts[0], fmts[-1]])]
         for t3, hopt, fl in runs:
             r2, _ = ops.run_cmd(ctx, t3, ["verify", {"root": "", "dh": True, "co": True, "h": hopt, "i": pats}], now + 20,
                                 order=case.get("order"))
@@ -245,6 +256,12 @@ def main(tier, seed):
     for zt in ZERO_TREES:
         for fs in ([["c4"], list(ref.FORMATS_CLI)]):
             cases.append({"tree": zt, "fmts": fs, "meta": True})
+    for st in SPECIAL_TREES:
+        for fs in ([["md5"], ["c4"], list(ref.FORMATS_CLI)]):
+            cases.append({"tree": st, "fmts": fs, "meta": len(fs) == 1})
+            cases.append({"tree": st, "fmts": fs, "order": "reversed"})
+            cases.append({"tree": st, "fmts": fs, "prior": ["xxh64"]})
+        cases.append({"tree": st, "fmts": ["xxh64", "md5"], "nested": sorted(p for p, c in st.items() if c is DIR)[0]})
     for f in ref.FORMATS_CLI:
         cases.append({"synthetic": f, "tree": {}, "fmts": [f]})
     if tier == "thorough":
